@@ -1,5 +1,6 @@
 SPECIFICATION Spec
-CONSTANTS Family = "hb"  MaxTrials = 3  MaxStep = 2  MaxVal = 1  MaxReports = 4  WithNaN = TRUE  WithFail = FALSE
+CONSTANTS Family = "hb"  MaxTrials = 3  MaxStep = 2  MaxVal = 1  MaxReports = 3  WithNaN = TRUE
+          FinishStates = {"COMPLETE"}
 INVARIANT AlgoWithinEnvelope
 INVARIANT EnvelopeSatisfiable
 INVARIANT CheckStepIsCode
